@@ -23,5 +23,8 @@ func controlsC18() []Control {
 		{Name: "a view with the same time stamp is acted on again", Expect: "R6", Mutate: replaceIn("(*botRunner).UpdateTableState", "br.lastGameStateTime >= gs.UpdatedAt", "br.lastGameStateTime > gs.UpdatedAt", 0)},
 		{Name: "bot forgets the time of the view it acted on", Expect: "R6", Mutate: replaceIn("(*botRunner).UpdateTableState", "\t\tbr.lastGameStateTime = gs.UpdatedAt\n", "", 0)},
 		{Name: "bot returns early when its bet succeeded and goes on when it failed", Expect: "R3", Mutate: replaceIn("(*botRunner).requestAI", "err := br.actions.Bet(chips)\n\t\tif err != nil {", "err := br.actions.Bet(chips)\n\t\tif err == nil {", 0)},
+		{Name: "actor hands views to its runner under the read lock", Expect: "R9", Mutate: replaceIn("(*actor).UpdateTableState", "\ta.mu.Lock()\n\tdefer a.mu.Unlock()\n", "\ta.mu.RLock()\n\tdefer a.mu.RUnlock()\n", 0)},
+		{Name: "actor releases its mutex before calling the runner", Expect: "R9", Mutate: replaceIn("(*actor).UpdateTableState", "\ta.mu.Lock()\n\tdefer a.mu.Unlock()\n", "\ta.mu.Lock()\n\ta.mu.Unlock()\n", 0)},
+		{Name: "bot filters stale views only within the hand it already knows", Expect: "R6", Mutate: replaceIn("(*botRunner).UpdateTableState", "\t\t\tbr.curGameID = gs.GameID\n\t\t}\n\n\t\tif br.lastGameStateTime >= gs.UpdatedAt {", "\t\t\tbr.curGameID = gs.GameID\n\t\t} else if br.lastGameStateTime >= gs.UpdatedAt {", 0)},
 	}
 }
